@@ -217,6 +217,61 @@ impl PV {
         }
     }
 
+    /// every key that occurs more than once in an object occurs with one and the same value
+    /// (then neither "first wins" nor "last wins" nor the members' order can change any outcome)
+    pub fn dups_are_clones(&self) -> bool {
+        match self {
+            PV::Seq(s) => s.iter().all(|x| x.dups_are_clones()),
+            PV::Map(m) => {
+                for (i, (k, v)) in m.iter().enumerate() {
+                    if m[..i].iter().any(|(k2, v2)| k2 == k && v2 != v) {
+                        return false;
+                    }
+                }
+                m.iter().all(|x| x.1.dups_are_clones())
+            }
+            _ => true,
+        }
+    }
+
+    /// number of non-empty objects in the payload
+    pub fn count_objects(&self) -> usize {
+        match self {
+            PV::Seq(s) => s.iter().map(|x| x.count_objects()).sum(),
+            PV::Map(m) => (!m.is_empty()) as usize + m.iter().map(|x| x.1.count_objects()).sum::<usize>(),
+            _ => 0,
+        }
+    }
+
+    /// the payload with one member of its `which`-th non-empty object (pre-order) repeated verbatim at
+    /// position `at` (modulo); the repeated member is the `member`-th (modulo)
+    pub fn with_cloned_member(&self, which: usize, member: usize, at: usize) -> PV {
+        fn go(pv: &PV, left: &mut isize, member: usize, at: usize) -> PV {
+            match pv {
+                PV::Seq(s) => PV::Seq(s.iter().map(|x| go(x, left, member, at)).collect()),
+                PV::Map(m) => {
+                    let mut here = false;
+                    if !m.is_empty() {
+                        if *left == 0 {
+                            here = true;
+                        }
+                        *left -= 1;
+                    }
+                    let mut m2: Vec<(String, PV)> = m.iter().map(|(k, v)| (k.clone(), go(v, left, member, at))).collect();
+                    if here {
+                        let e = m2[member % m2.len()].clone();
+                        let pos = at % (m2.len() + 1);
+                        m2.insert(pos, e);
+                    }
+                    PV::Map(m2)
+                }
+                x => x.clone(),
+            }
+        }
+        let mut left = which as isize;
+        go(self, &mut left, member, at)
+    }
+
     pub fn has_nonfinite(&self) -> bool {
         match self {
             PV::Float(f) => !f.is_finite(),
